@@ -5,13 +5,15 @@
 (*         {"ev":"bulk","cases":k,"panics":p,"noncanonical":c,"tag":..}                              *)
 (* Conformance: res = "ok" exactly when the specification's decoder accepts b for the variant n the   *)
 (* caller asked for; an accepted string re-encodes (by the code, and by the specification's encoder)  *)
-(* to itself; a panic never conforms.                                                              *)
+(* to itself; a panic never conforms.  "verify" is the outcome of calling verify with the decoded public key /   *)
+(* signature together with an honest counterpart ("true"/"false"/"panic"/"na"): it must not be a panic (C03).   *)
 EXTENDS KeyCodec, TraceLib
 VARIABLES l, bad
 vars == <<l, bad>>
 
 Judge(e) ==
   IF e.ev = "bulk" THEN [ok |-> e.panics = 0 /\ e.noncanonical = 0, branch |-> "bulk", detail |-> <<e.cases>>]
+  ELSE IF e.verify = "panic" THEN [ok |-> FALSE, branch |-> e.type \o "-decoded-object-makes-verify-panic", detail |-> <<>>]
   ELSE
   LET P == ParamsOf(e.n) IN
   IF e.type = "pk" THEN
